@@ -85,11 +85,15 @@ class Handlers(UserDict):
     def __init__(self, initial: Optional[Mapping[str, BaseHandler]] = None) -> None:
         self._resolve: ResolverMethod = self._create_resolver()
 
-        handlers: Mapping[str, BaseHandler] = initial or {
-            MEDIA_JSON: JSONHandler(),
-            MEDIA_MULTIPART: MultipartFormHandler(),
-            MEDIA_URLENCODED: URLEncodedFormHandler(),
-        }
+        handlers: Mapping[str, BaseHandler]
+        if initial is not None:
+            handlers = initial
+        else:
+            handlers = {
+                MEDIA_JSON: JSONHandler(),
+                MEDIA_MULTIPART: MultipartFormHandler(),
+                MEDIA_URLENCODED: URLEncodedFormHandler(),
+            }
 
         # NOTE(jmvrbanac): Directly calling UserDict as it's not inheritable.
         # Also, this results in self.update(...) being called.
